@@ -305,6 +305,9 @@ Definition list_peek (n : Z) (h : heap) : res cst (T * bool) :=
 
 Inductive op :=
 | OAt (n : Z) | OLast | OEnd | OFind (f : T -> bool)           (* each creates a new cursor *)
+| OCopy (k : nat)            (* struct copy of cursor k: a new Cursor value with the same pred *)
+| OAssign (k j : nat)        (* struct assignment: cursor k becomes a copy of cursor j *)
+| ONilCursor                 (* a nil pointer to a Cursor, or new(Cursor) / Cursor{} whose pred is nil *)
 | OGet (k : nat) | OSet (k : nat) (v : T) | OAtEnd (k : nat) | ONext (k : nat)
 | OPush (k : nat) (v : T) | OAdd (k : nat) (vs : list T) | ORemove (k : nat) | OTruncate (k : nat)
 | OClear | OPeek (n : Z) | OEach (f : T -> bool) | OLen | OIsEmpty.
@@ -314,17 +317,20 @@ Inductive out :=
 | RList (l : list T) | RInt (n : Z)
 | RPanic (k : pkind) | RHang | RBad | RNoCursor.
 
-(* the list's heap and the preds of the cursors handed out so far *)
-Definition mstate := (heap * list nat)%type.
+(* the list's heap and the Cursor values in the caller's hands: each is its pred field, [Ptr a],
+   or [Nil] for a zero Cursor{} (pred == nil) and for a nil Cursor pointer.  Both behave alike: every
+   method starts with c.pred.checkValid() (directly or through c.AtEnd()), whose e.link
+   dereferences nil -- except Add of no values, whose loop body never runs. *)
+Definition mstate := (heap * list link)%type.
 
 Definition init : mstate := ([(zero, Nil)], []).
 
-Definition set_nth (cs : list nat) (k : nat) (p : nat) : list nat := firstn k cs ++ p :: skipn (S k) cs.
+Definition set_nth {A} (cs : list A) (k : nat) (p : A) : list A := firstn k cs ++ p :: skipn (S k) cs.
 
 (* a method that hands out a new cursor *)
 Definition mk_cursor (m : mstate) (r : res cst unit) : mstate * out :=
   match r with
-  | Ok _ s => ((fst s, snd m ++ [snd s]), RUnit)
+  | Ok _ s => ((fst s, snd m ++ [Ptr (snd s)]), RUnit)
   | Panic k s => ((fst s, snd m), RPanic k)
   | OutOfFuel => (m, RHang)
   | BadAddr => (m, RBad)
@@ -339,18 +345,21 @@ Definition on_list {A} (m : mstate) (r : res cst A) (o : A -> out) : mstate * ou
   | BadAddr => (m, RBad)
   end.
 
-(* a method of cursor k *)
-Definition on_cursor {A} (m : mstate) (k : nat) (f : cst -> res cst A) (o : A -> out) : mstate * out :=
+(* a method of cursor k; [onnil] is what the method does when c.pred is nil (or c itself) *)
+Definition on_cursor {A} (m : mstate) (k : nat) (onnil : out) (f : cst -> res cst A) (o : A -> out) : mstate * out :=
   match nth_error (snd m) k with
   | None => (m, RNoCursor)
-  | Some p =>
+  | Some Nil => (m, onnil)
+  | Some (Ptr p) =>
     match f (fst m, p) with
-    | Ok a s => ((fst s, set_nth (snd m) k (snd s)), o a)
-    | Panic kd s => ((fst s, set_nth (snd m) k (snd s)), RPanic kd)
+    | Ok a s => ((fst s, set_nth (snd m) k (Ptr (snd s))), o a)
+    | Panic kd s => ((fst s, set_nth (snd m) k (Ptr (snd s))), RPanic kd)
     | OutOfFuel => (m, RHang)
     | BadAddr => (m, RBad)
     end
   end.
+
+Definition nilp : out := RPanic NilDeref.
 
 Definition step (m : mstate) (o : op) : mstate * out :=
   match o with
@@ -358,14 +367,23 @@ Definition step (m : mstate) (o : op) : mstate * out :=
   | OLast => mk_cursor m (list_last (fst m))
   | OEnd => mk_cursor m (list_end (fst m))
   | OFind f => mk_cursor m (list_find f (fst m))
-  | OGet k => on_cursor m k cur_get RVal
-  | OSet k v => on_cursor m k (cur_set v) (fun _ => RUnit)
-  | OAtEnd k => on_cursor m k cur_at_end RBool
-  | ONext k => on_cursor m k cur_next RBool
-  | OPush k v => on_cursor m k (cur_push v) (fun _ => RUnit)
-  | OAdd k vs => on_cursor m k (cur_add vs) (fun _ => RUnit)
-  | ORemove k => on_cursor m k cur_remove RVal
-  | OTruncate k => on_cursor m k cur_truncate (fun _ => RUnit)
+  | OCopy k => match nth_error (snd m) k with
+               | None => (m, RNoCursor)
+               | Some p => ((fst m, snd m ++ [p]), RUnit)
+               end
+  | OAssign k j => match nth_error (snd m) k, nth_error (snd m) j with
+                   | Some _, Some p => ((fst m, set_nth (snd m) k p), RUnit)
+                   | _, _ => (m, RNoCursor)
+                   end
+  | ONilCursor => ((fst m, snd m ++ [Nil]), RUnit)
+  | OGet k => on_cursor m k nilp cur_get RVal
+  | OSet k v => on_cursor m k nilp (cur_set v) (fun _ => RUnit)
+  | OAtEnd k => on_cursor m k nilp cur_at_end RBool
+  | ONext k => on_cursor m k nilp cur_next RBool
+  | OPush k v => on_cursor m k nilp (cur_push v) (fun _ => RUnit)
+  | OAdd k vs => on_cursor m k (match vs with [] => RUnit | _ => nilp end) (cur_add vs) (fun _ => RUnit)
+  | ORemove k => on_cursor m k nilp cur_remove RVal
+  | OTruncate k => on_cursor m k nilp cur_truncate (fun _ => RUnit)
   | OClear => on_list m (list_clear (fst m)) (fun _ => RUnit)
   | OPeek n => on_list m (list_peek n (fst m)) (fun vb => RValBool (fst vb) (snd vb))
   | OEach f => on_list m (list_each f (fst m)) RList
@@ -388,7 +406,7 @@ Fixpoint run_state (m : mstate) (ops : list op) : mstate :=
 (* the same history with Truncate as it was before the repair (F7) *)
 Definition step_pinned (m : mstate) (o : op) : mstate * out :=
   match o with
-  | OTruncate k => on_cursor m k cur_truncate_pinned (fun _ => RUnit)
+  | OTruncate k => on_cursor m k nilp cur_truncate_pinned (fun _ => RUnit)
   | _ => step m o
   end.
 
@@ -505,6 +523,9 @@ Arguments OAt {T} n.
 Arguments OLast {T}.
 Arguments OEnd {T}.
 Arguments OFind {T} f.
+Arguments OCopy {T} k.
+Arguments OAssign {T} k j.
+Arguments ONilCursor {T}.
 Arguments OGet {T} k.
 Arguments OSet {T} k v.
 Arguments OAtEnd {T} k.
